@@ -56,6 +56,49 @@ pub fn record(args: &[String]) {
             push_chain(&mut out, &format!("halfline/f64 warmup={w}"), delta, &raw, &OwnN::HalfLine, 1e-7, false, &mut stats, panic);
         }
     }
+    // the multi-chain front end: every chain starts from ITS OWN heuristic value (its start point, its first momentum
+    // draw) and shrinks towards ln(10 eps0) of that value
+    {
+        use mini_mcmc::nuts::NUTS;
+        use rand::Rng;
+        let dev = <B64 as Backend>::Device::default();
+        let sets: Vec<(&str, Vec<Vec<f64>>)> = vec![
+            ("rosen2", vec![vec![0.2, 0.1], vec![-1.5, 2.5], vec![3.0, -2.0], vec![0.9, 0.8], vec![-0.1, 4.0]]),
+            ("gauss-ill", vec![vec![1.0, 2.0], vec![-2.0, 1.0], vec![6.0, -3.0], vec![0.0, 0.0]]),
+        ];
+        for (si, (name, inits)) in sets.iter().enumerate() {
+            for (mode, (nc, nd)) in [(0usize, 0usize), (6, 10), (4, 3)].into_iter().enumerate().map(|(i, (a, b))| (i, (a.max(4), b))) {
+                let sd = splitmix(&mut s);
+                let progress = mode == 2;
+                let res: Result<Vec<Value>, String> = catch(|| {
+                    macro_rules! go {
+                        ($target:expr) => {{
+                            let mut smp = NUTS::<f64, B64, _>::new($target, inits.clone(), 0.8).set_seed(sd);
+                            let expect: Vec<f64> = smp.verif_chains().iter().zip(inits.iter()).map(|(ch, x0)| {
+                                let p0: Vec<f64> = ch.verif_rng_clone().sample_iter(rand_distr::StandardNormal).take(x0.len()).collect();
+                                let tx = Tensor::<B64, 1>::from_data(TensorData::new(x0.clone(), [x0.len()]), &dev);
+                                let tp = Tensor::<B64, 1>::from_data(TensorData::new(p0, [x0.len()]), &dev);
+                                mini_mcmc::nuts::verif_api::find_reasonable_epsilon::<B64, f64, _>(tx, tp, &$target)
+                            }).collect();
+                            if progress { let _ = smp.run_progress(nc, nd); } else { let _ = smp.run(nc, nd); }
+                            smp.verif_chains().iter().enumerate().map(|(i, ch)| {
+                                let (m, _nd, eps, _eb, _hb, mu) = ch.verif_state();
+                                json!({"e": "multi", "set": name, "chain": i, "chains": inits.len(), "nd": nd, "progress": progress, "m": m,
+                                    "eps0": crate::c02::fx16(expect[i].ln()), "mu": crate::c02::fx16(mu), "eps": crate::c02::fx16(eps.ln()),
+                                    "differs_from_chain0": expect[i] != expect[0], "ok_run": true})
+                            }).collect::<Vec<Value>>()
+                        }};
+                    }
+                    if si == 0 { go!(Rosenbrock2D::<f64> { a: 1.0, b: 10.0 }) } else { go!(GaussP { prec: vec![vec![5.0, -2.0], vec![-2.0, 1.0]] }) }
+                });
+                match res {
+                    Ok(evs) => for e in evs { out.push(&e); },
+                    Err(p) => out.push(&json!({"e": "multi", "set": name, "chain": 0, "chains": inits.len(), "nd": nd, "progress": progress, "m": 0,
+                        "eps0": crate::c02::fx16(f64::NAN), "mu": crate::c02::fx16(f64::NAN), "eps": crate::c02::fx16(f64::NAN), "differs_from_chain0": false, "ok_run": false, "panic": p})),
+                }
+            }
+        }
+    }
     // the start-up heuristic through the verif wrapper
     let dev = <B64 as Backend>::Device::default();
     for (k, own) in [OwnN::GaussP { prec: vec![vec![1.0]] }, OwnN::GaussP { prec: vec![vec![1e4]] }, OwnN::GaussP { prec: vec![vec![1e-4]] }, OwnN::Steep { c: 1e3 }, OwnN::HalfLine].into_iter().enumerate() {
